@@ -210,13 +210,14 @@ int vnacal_make_correlated_parameter(vnacal_t *vcp, int other,
      */
     vpmrp = _vnacal_alloc_parameter("vnacal_make_correlated_parameter", vcp);
     if (vpmrp == NULL) {
-	return -1;
+	goto error;
     }
     _vnacal_hold_parameter(vpmrp_other);
     vpmrp->vpmr_type = VNACAL_CORRELATED;
     vpmrp->vpmr_other = vpmrp_other;
     vpmrp->vpmr_sigma_frequencies = sigma_frequencies;
     if (sigma_frequencies == 1) {
+	free((void *)frequency_vector_copy);
 	vpmrp->vpmr_sigma_frequency_vector = NULL;
     } else if (frequency_vector_copy != NULL) {
 	vpmrp->vpmr_sigma_frequency_vector = frequency_vector_copy;
